@@ -490,10 +490,17 @@ func runLockEscape(c *core.Ctx) {
 				}
 				c.CountSites(1)
 				var esc []string
+				for _, rb := range an.ReturnBlocks(fn) {
+					for _, rv := range an.ReturnValues(an.LastInstr(rb).(*ssa.Return)) {
+						if rv == ssa.Value(ld) {
+							esc = append(esc, "returned")
+						}
+					}
+				}
 				for _, u := range *ld.Referrers() {
 					switch x := u.(type) {
 					case *ssa.Return:
-						esc = append(esc, "returned")
+						_ = x
 					case *ssa.Store:
 						if x.Val == ssa.Value(ld) {
 							if _, local := x.Addr.(*ssa.Alloc); !local {
